@@ -13,13 +13,15 @@ def trace(pid, text, technique, extra_note=''):
             "level_note": TRACE_NOTE + extra_note, "technique": technique}
 TV = ("TLA+ trace validation: TLC evaluates the property's formulas (spec/DbftTrace.tla) on every logged step of real dbft runs "
       "(random asynchronous adversary cluster + open single-node environment) and checks each logged call is an outcome of the "
-      "implementation-shaped specification spec/DbftNode.tla (conformance)")
+      "implementation-shaped specification spec/DbftNode.tla (conformance); spec->code: behaviours TLC generates from the specification "
+      "(random simulation, exhaustive state cover of small MC_Node/MC_Sync configurations, attack schedules found on weakened variants) "
+      "are executed on the real node and validated the same way; TLC design checks of the open single-node / closed compositions")
 CHECKS = [
  trace("C01", "Agreement formula evaluated by TLC on every block acceptance of recorded real multi-node runs under an asynchronous adversary with <=F Byzantine/amnesia validators; forks are classified against the open known finding KF-1 by a TLA+ signature.", TV),
  trace("C02", "Certificate formulas (>= M current-view commits valid for exactly the handed block, tip extension, block = proposal; pre-commit analogue) evaluated by TLC inside every real ProcessBlock/ProcessPreBlock callback snapshot.", TV),
  trace("C03", "Non-equivocation, commit-lock and view-monotonicity formulas evaluated by TLC over each real node's whole outgoing history (including payloads embedded in its recovery messages).", TV),
  trace("C04", "Response/commit/view-change evidence formulas evaluated by TLC on the real node state captured inside each Broadcast callback and on every returned state.", TV),
- trace("C05", "One-decision, quiescence-until-Reset and clean re-initialisation formulas (tables rebuilt only from payloads cached for the new height) evaluated by TLC on multi-height real runs with ledger jumps and validator-set changes.", TV),
+ trace("C05", "One-decision, quiescence-until-Reset and clean re-initialisation formulas (tables rebuilt only from payloads cached for the new height) evaluated by TLC on multi-height real runs with ledger jumps and validator-set changes; ResetClean / EarlyUsed action properties checked by TLC on the two-height open model and its state cover executed on the real node.", TV),
  trace("C07", "Anti-MEV phase-order formulas evaluated by TLC on the real callback order (PreCommit, ProcessPreBlock, NewBlockFromContext/Sign, Commit) and on heights below the enabling height.", TV),
  trace("C10", "Timer-armed-for-current-epoch formula evaluated by TLC on the virtual timer after every real API call, and re-arm on every matching timeout.", TV),
  trace("C11", "No-effect formulas for each class of inadmissible / repeated input and no-panic, evaluated by TLC on every real call of an open environment that feeds arbitrary payloads, tags, transactions and callback results.", TV),
@@ -31,7 +33,7 @@ def other(pid, cat, text, technique, note, engine):
             "evidence_file": "evidence/%s.json" % pid, "replay_cmd_template": "./check %s --replay {path}" % pid, "engine": engine,
             "level_claimed": {"category": cat, "text": text, "design_ref": "DESIGN.md section 6"}, "level_note": note, "technique": technique}
 CHECKS += [
- trace("C08", "No-view-change / decided-in-view-0 / same-block / everybody-at-target formulas evaluated by TLC on fault-free synchronous virtual-time runs of real nodes with random delays, duplicates, a node that receives each round in any order, late Reset (next-height traffic arrives early), anti-MEV and dynamic block time on/off.", TV.replace("random asynchronous adversary cluster + open single-node environment", "virtual-time synchronous cluster driver")),
+ trace("C08", "No-view-change / decided-in-view-0 / same-block / everybody-at-target formulas evaluated by TLC on fault-free synchronous virtual-time runs of real nodes with random delays, duplicates, a node that receives each round in any order, late Reset (next-height traffic arrives early), anti-MEV and dynamic block time on/off; plus the state cover of spec/MC_Sync.tla (one node, honest synchronous environment, EVERY delivery order / duplication / early next-height arrival; NeverAsks, View0, Decides, TheBlock checked exhaustively by TLC) executed on the real node.", TV.replace("random asynchronous adversary cluster + open single-node environment", "virtual-time synchronous cluster driver")),
  trace("C09", "Progress (every live validator two heights beyond the fault, bounded wait) and deciding-view <= number of silent validators evaluated by TLC on virtual-time runs with silent / watch-only validators, partitions that heal (time- and broadcast-triggered), amnesia restarts within the fault budget, ledger sync for laggards.", TV.replace("random asynchronous adversary cluster + open single-node environment", "virtual-time fault-schedule cluster driver"), " Liveness is checked as bounded liveness: 200 block times per height for silent runs, 400 block times + 8 x partition length after healing."),
  trace("C14", "Clock-shift formula (effects equal, absolute instants shifted by delta) evaluated by TLC on lock-step pairs of real single-node runs whose injected clocks differ by delta, and the round-trip estimate checked to move only by samples measured on the injected clock.", TV.replace("random asynchronous adversary cluster + open single-node environment", "paired open-environment runs at two clock epochs")),
  trace("C15", "Proposal-well-formedness formula (timestamp = max(previous + increment, truncated clock) > previous; transactions = GetVerified result in order; constructor arguments = context = broadcast payload) evaluated by TLC on every own PrepareRequest of real primaries over a grid of clocks behind / equal / ahead / stepping back.", TV.replace("random asynchronous adversary cluster + open single-node environment", "proposal grid driver + adversarial drivers")),
